@@ -271,3 +271,63 @@ for _lay, _bk in itertools.product(LAYOUTS, ('scalar', 'per_signal', 'per_variab
         # 3. sensitivity protocol: per iteration  reset, response, then for each of the 2 responses: sensitivity + reset
         per_it = [e[0] for e in log]
         ctx.prove('protocol', per_it[:12] == ['reset', 'response', 'sensitivity', 'reset', 'sensitivity', 'reset'] * 2)
+
+
+# ------------------------------------------------------------------------------------------------ subsolv: the starting point of the interior-point iteration
+class _StopHere(Exception):
+    pass
+
+
+class _ContractAtLoopHead:
+    """prefix contract: obligations about the state in which the first loop of the function is entered; execution stops there (the loop itself - a
+    primal-dual Newton iteration with line search - is covered by the bounded stand-in)"""
+    def __init__(self, cb):
+        self.cb = cb
+
+    def run_while(self, it, st, env, k):
+        self.cb(it.ctx, env)
+        raise _StopHere()
+
+
+for _start in ('default', 'warm'):
+    @harness(P, f'subsolv.interior_start[{_start}]', targets=[f'{M}:subsolv'])
+    def h_subsolv_start(ctx, it, start=_start):
+        """the interior-point solver must START strictly inside the box: alfa_j < x_j < beta_j for every variable (the barrier terms 1/(x-alfa),
+        1/(beta-x) and the initial multipliers xsi, eta are defined only there), for the default start (mid-point) and for a warm start x0 given
+        by the caller - which may lie on or outside the bounds and is pulled strictly inside; all slack and multiplier start values are positive.
+        Precondition: beta_j - alfa_j > 2e-10 (the box is wider than the clipping margin)"""
+        from fractions import Fraction
+        n, m = ctx.sym('n'), 2
+        ctx.assume(n >= 1)
+        (alfa, AL), (beta, BE), (low, LO), (upp, UP) = (arr(ctx, nm, (n,)) for nm in ('alfa', 'beta', 'low', 'upp'))
+        x0, X0 = arr(ctx, 'x0', (n,))
+        P_, _ = arr(ctx, 'P', (m + 1, n))
+        Q_, _ = arr(ctx, 'Q', (m + 1, n))
+        j = ctx.sym('j')
+        ctx.assume(z3.And(j >= 0, j < n))
+        q = z3.Int('q!box')
+        ctx.hyps.append(z3.ForAll([q], z3.Implies(z3.And(q >= 0, q < n), BE(q) - AL(q) > z3.RealVal('2/10000000000'))))
+        a_ = CArr(to_carr([0, 0]).data, 'real')
+        c_ = CArr(to_carr([ctx.sym('c0', 'real'), ctx.sym('c1', 'real')]).data, 'real')
+        seen = {}
+
+        def at_loop_head(c, env):
+            for nm in ('x', 'y', 'z', 'lam', 'xsi', 'eta', 'mu', 'zet', 's'):
+                seen[nm] = env.lookup(nm)
+        it.loop_specs[(f'{M}:subsolv', 0)] = _ContractAtLoopHead(at_loop_head)
+        ctx.safety_on = False
+        try:
+            it.call(it.get_function(f'{M}:subsolv'), [Fraction(1, 10 ** 7), low, upp, alfa, beta, P_, Q_, 1, a_, CArr(to_carr([0, 0]).data, 'real'), c_,
+                                                    CArr(to_carr([1, 1]).data, 'real')], dict(x0=x0) if start == 'warm' else {})
+            ctx.prove('loop_reached', False)
+            return
+        except _StopHere:
+            pass
+        xj = seen['x'].at(j)
+        ctx.prove('start_strictly_above_lower_bound', V.cmp('>', xj, AL(j)))
+        ctx.prove('start_strictly_below_upper_bound', V.cmp('<', xj, BE(j)))
+        ctx.prove('bound_multipliers_positive', V.and_(V.cmp('>', seen['xsi'].at(j), 0), V.cmp('>', seen['eta'].at(j), 0)))
+        for nm in ('y', 'lam', 's', 'mu'):
+            v = seen[nm]
+            ctx.prove(f'{nm}_positive', z3.And(*[V.z(V.cmp('>', (v.data[k] if isinstance(v, CArr) else v.at(k)), 0)) for k in range(m)]))
+        ctx.prove('z_zet_positive', V.and_(V.cmp('>', seen['z'], 0), V.cmp('>', seen['zet'], 0)))
